@@ -1,6 +1,7 @@
 """C20 — WebSocket upgrades follow the RFC 6455 handshake (handshake only)."""
 import multiprocessing as mp
 import os
+import re
 import time
 import traceback
 
@@ -213,6 +214,12 @@ def witnesses(chk):
     # keys are opaque octets: not base64, not UTF-8, a single octet
     for kb in ([0xff, 0xfe, 0x41], [0xe9], list(b'not base64 at all!'), [0xc3, 0x28]):
         cases.append({'op': 'ws_handshake', 'headers': {'connection': 'Upgrade', 'upgrade': 'websocket', 'version': '13', 'key': 'octets', 'key_bytes': kb}})
+    # after the upgrade: bytes arriving in several TCP segments reach a handler that uses read_exact, and its vectored reply comes back intact
+    for segs in ([12], [3, 5, 4], [6, 6], [1] * 12):
+        c_ = {'op': 'ws_stream', 'segments': segs}
+        r_ = replay([c_])[0]
+        chk.replayed += 1
+        if not r_.get('as_specified'): chk.counterexample(f'bytes after the upgrade sent in segments {segs}: {r_}', c_, True, role='raw-stream:wire')
     res = replay(cases)
     for c, r in zip(cases, res):
         chk.replayed += 1
@@ -220,6 +227,76 @@ def witnesses(chk):
         good = (r.get('status') == 101) == want and (not want or r.get('accept_ok')) and (want or 400 <= r.get('status', 0) <= 499)
         if not good: chk.counterexample(f'handshake {c["headers"]}: native {r}', c, True, role='handshake')
         if len(chk.samples) < 6: chk.samples.append({'case': c['headers'], 'native': r})
+
+
+def raw_stream_delegation(chk, ex):
+    """WebsocketConnectionRaw (what `WebsocketConnection::into_inner` hands to the channel handler) is a plain wrapper of the upgraded
+    connection: every AsyncRead / AsyncWrite method must call the same method of the inner stream exactly once with the caller's own
+    arguments (the very buffer / slices) and return its result unchanged - then bytes flow unmodified whatever hyper and tokio do inside.
+    The inner methods are recording stubs returning an unconstrained result."""
+    f = ex.fns
+    methods = {'poll_read': 3, 'poll_write': 3, 'poll_write_vectored': 3, 'poll_flush': 2, 'poll_shutdown': 2, 'is_write_vectored': 1}
+    calls = []
+    def m_inner(ex, a, c):
+        name = re.search(r'::(\w+)$', c).group(1)
+        res = Opaque('inner-result', (name, len(calls)))
+        calls.append((name, [dv(x) for x in a], res))
+        return res
+    local = [(r'^<TokioIo<Upgraded> as (tokio::io::)?Async(Read|Write)>::(poll_read|poll_write|poll_write_vectored|poll_flush|poll_shutdown|is_write_vectored)$', m_inner),
+             (r'^TokioIo::<Upgraded>::is_write_vectored$', m_inner),
+             (r'<Pin<&mut WebsocketConnectionRaw> as DerefMut>::deref_mut$|<Pin<&mut WebsocketConnectionRaw> as Deref>::deref$', lambda ex, a, c: dv(a[0]).fields[None][0].v if isinstance(dv(a[0]), Adt) else a[0])]
+    saved = ex.models
+    ex.models = local + ex.models
+    try:
+        for name, nargs in methods.items():
+            c = [n for n in f if re.search(r'^websocket::<impl at [^>]*>::' + name + '$', n) and 'WebsocketConnectionRaw' in f[n].locals.get('_1', '')]
+            if len(c) != 1: raise Inconclusive(f'cannot locate WebsocketConnectionRaw::{name}: {c}')
+            inner = Opaque('upgraded-connection')
+            raw = Adt('WebsocketConnectionRaw', 0, {None: [Cell(inner)]})
+            cx, buf = Opaque('task-context'), Opaque('callers-buffer')
+            def h(ex):
+                del calls[:]
+                recv = Adt('Pin', 0, {None: [Cell(Ref(Cell(raw)))]}) if name != 'is_write_vectored' else Ref(Cell(raw))
+                args = [recv] + ([Ref(Cell(cx))] if nargs >= 2 else []) + ([Ref(Cell(buf))] if nargs >= 3 else [])
+                r = ex.call_fn(c[0], args)
+                return r, list(calls)
+            try:
+                outs = ex.explore(h, [])
+            except Unsupported as e:
+                # the wrapper does something to the caller's buffers that a plain delegation would not: ask the real code
+                ex.unsupported_paths.append(f'raw-stream/{name}: {e}')
+                case = {'op': 'ws_stream', 'segments': [3, 5, 4]}
+                nats = replay([case, {'op': 'ws_stream', 'segments': [6, 6]}, {'op': 'ws_stream', 'segments': [1, 1, 1, 1, 1, 1, 1, 1, 1, 1, 1, 1]}])
+                if not all(n_.get('as_specified') for n_ in nats):
+                    chk.counterexample(f'WebsocketConnectionRaw::{name} is not a plain delegation ({e}); a channel handler using read_exact / write_vectored over '
+                                       f'segmented traffic -> {[str(n_)[:160] for n_ in nats]}', case, True, role='raw-stream:' + name)
+                continue
+            chk.paths += len(outs)
+            if not outs: raise Inconclusive(f'vacuity: WebsocketConnectionRaw::{name} has no path; {ex.unsupported_paths[-2:]}')
+            for pc, (k, rr) in outs:
+                if k != 'ok':
+                    m = chk.prove(f'raw-stream/{name}/no-panic', pc, z3.BoolVal(True))
+                    if m is not None: chk.mismatches.append(f'WebsocketConnectionRaw::{name} panics: {rr}')
+                    continue
+                r, cs = rr
+                good = len(cs) == 1 and cs[0][0] == name and dv(r) is cs[0][2]
+                if good:
+                    got = cs[0][1]
+                    def is_inner(x):
+                        for _ in range(4):
+                            if isinstance(x, Adt) and x.ty == 'Pin': x = dv(x.fields[None][0].v)
+                            elif isinstance(x, Ref): x = dv(x.cell.v)
+                            else: break
+                        return x is inner
+                    good = is_inner(got[0]) and (nargs < 2 or got[1] is cx) and (nargs < 3 or got[2] is buf)
+                m = chk.prove(f'raw-stream/{name}/delegates-once-with-the-callers-arguments-and-returns-the-result', pc, z3.BoolVal(not good))
+                if m is not None:
+                    case = {'op': 'ws_stream', 'segments': [3, 5, 4]}
+                    nat = replay([case])[0]
+                    chk.counterexample(f'WebsocketConnectionRaw::{name} is not a plain delegation: inner calls {[(n_, [str(x)[:40] for x in a_]) for n_, a_, _ in cs]}, returned {r}; '
+                                       f'a channel handler using read_exact / write_vectored over segmented traffic -> {nat}', case, not nat.get('as_specified', False), role='raw-stream:' + name)
+    finally:
+        ex.models = saved
 
 
 def run(tier, replay_file=None):
@@ -249,6 +326,7 @@ def run(tier, replay_file=None):
                        'sha1 digest = uninterpreted function of the concatenated update arguments; base64 engine identified by its constant',
                        'tokio::spawn records the task; the upgraded byte stream (hyper/tokio I/O) is outside this check']
     t_w = time.time()
+    raw_stream_delegation(chk, ex)
     witnesses(chk)
     chk.extra['phase_s'] = {'load': round(t_w - chk.t0, 1), 'witnesses': round(time.time() - t_w, 1)}
     incon = []
